@@ -694,8 +694,44 @@ impl Family for BuiltinFamily {
     }
 }
 
+/// replies of several hundred packets / units (the reply must still be one conformant response)
+fn long_programs() -> Vec<Prog> {
+    let mut v: Vec<Prog> = Vec::new();
+    for r in (245..=262).chain([300, 520, 1000]) {
+        // one column, r rows via write_row, finished explicitly / by drop
+        let mut p = vec![START1];
+        p.extend(std::iter::repeat(WROW_K).take(r));
+        let mut q = p.clone();
+        p.push(FINISH);
+        q.push(DROP_R);
+        v.push(p);
+        v.push(q);
+    }
+    for n in [70usize, 130, 300] {
+        // a chain of n one-row resultsets, then a completion
+        let mut p = Vec::new();
+        for _ in 0..n {
+            p.extend([START1, WROW_K, FINISH_ONE]);
+        }
+        p.push(COMPLETED);
+        v.push(p);
+        // a chain of n completions
+        let mut q: Prog = std::iter::repeat(COMPLETE_ONE).take(n).collect();
+        q.push(NO_MORE);
+        v.push(q);
+        // zero-column sets with rows in a chain
+        let mut z = Vec::new();
+        for _ in 0..n {
+            z.extend([START0, END_ROW, END_ROW, FINISH_ONE]);
+        }
+        z.push(ERROR);
+        v.push(z);
+    }
+    v
+}
+
 pub fn build(quick: bool) -> Check {
-    let depth = if quick { 7 } else { 10 };
+    let depth = if quick { 7 } else { 11 };
     let main = ProgFamily {
         label: format!("writer-programs-depth-{}", depth),
         progs: programs(depth, &[0, 1, 2]),
@@ -709,11 +745,21 @@ pub fn build(quick: bool) -> Check {
     let pairs = PairFamily {
         progs: programs(if quick { 3 } else { 4 }, &[0, 1, 2]),
     };
+    let long = ProgFamily {
+        label: "long-replies".into(),
+        progs: long_programs(),
+        kmap: [0, 1, 2],
+    };
+    let long_wide = ProgFamily {
+        label: "long-replies-300-columns".into(),
+        progs: vec![vec![START1, WROW_K, WROW_K, FINISH], vec![START1, WCOL_V, END_ROW, FINISH]],
+        kmap: [0, 300, 2],
+    };
     let n_main = main.progs.len();
     Check {
         id: "C03",
         level: "model_checking",
-        rule: format!("every complete program of <= {} writer calls through the typestate automaton (start(0|1|2 cols), write_col(v|NULL), end_row, write_row(0|k|k+1), finish, finish_one, finish_error, complete_one, completed, error, no_more_results, drop), in text and binary mode, each followed by a PING sentinel ({} programs); wide variants (k=3, k=300); all ordered pairs of short programs; library replies and silent commands. Oracle: reference interpreter -> predicted response units vs strict decode; shape-contradicting programs must be refused at or before the call that closes the malformed row and nothing malformed may reach the transport. Non-trivial = program of >= 3 calls.", depth, n_main),
+        rule: format!("every complete program of <= {} writer calls through the typestate automaton (start(0|1|2 cols), write_col(v|NULL), end_row, write_row(0|k|k+1), finish, finish_one, finish_error, complete_one, completed, error, no_more_results, drop), in text and binary mode, each followed by a PING sentinel ({} programs); wide variants (k=3, k=300); all ordered pairs of short programs; library replies and silent commands; replies of 245..262, 300, 520, 1000 rows, 300 columns, and chains of 70..300 resultsets / completions. Oracle: reference interpreter -> predicted response units vs strict decode; shape-contradicting programs must be refused at or before the call that closes the malformed row and nothing malformed may reach the transport. Non-trivial = program of >= 3 calls.", depth, n_main),
         assumptions: vec![
             "a fresh QueryResultWriter that is dropped or told no_more_results without starting anything is outside the property and not generated".into(),
             "a malformed row closed by drop has no call result: refusal is then 'run_on returns the deferred error'".into(),
@@ -721,7 +767,7 @@ pub fn build(quick: bool) -> Check {
         bounds: json!({"max_calls": depth, "programs": n_main}),
         exhaustive: true,
         caps_hit: vec![],
-        families: vec![Box::new(main), Box::new(wide), Box::new(pairs), Box::new(BuiltinFamily)],
+        families: vec![Box::new(main), Box::new(wide), Box::new(pairs), Box::new(BuiltinFamily), Box::new(long), Box::new(long_wide)],
         required: vec!["shape_contradicting_programs", "chained_responses", "programs_ending_in_drop", "malformed_row_closed_by_drop", "pairs", "builtin"],
     }
 }
